@@ -1,21 +1,25 @@
 """C40 - bundles and merge directives reproduce the revisions they carry.
 
 One case = one generated history (renames of modified files, exec flips, symlinks and retargets, binary
-contents, merges; time zones incl. negative sub-hour offsets; revision properties) gathered into one
-repository R, then
+contents, merges; time zones incl. negative sub-hour offsets; revision properties; revisions that REPLACE the
+occupant of a path: entry removed and another renamed onto its path in one revision or across two, swaps,
+re-adds - see _c40_replace) gathered into one repository R, then
 
- (1) bundles: (base, target) pairs x formats {4, 0.9 (+ 0.8 on non-rich-root formats)}:
+ (1) bundles: (base, target) pairs - random ones plus the pairs whose delta replaces the occupant of a path -
+     x formats {4, 0.9 (+ 0.8 on non-rich-root formats)}:
      write_bundle(R, target, base) -> read_bundle -> install_bundle into a twin repository that holds exactly
      ancestry(base) (sometimes more, sometimes of another repository format for v4).
      Oracle: the written revision set is ancestry(target) - ancestry(base) (plain set algebra over the
      recorded graph); the reader names the same target and revisions with the same metadata; after the
      installation every carried revision is present in the twin and its Testament / StrictTestament /
      StrictTestament3 TEXTS equal those computed in R.
- (2) merge directives: MergeDirective2.from_objects (bundle+patch / bundle / patch / plain) and the format-1
-     MergeDirective (0.9 bundle / diff / plain) -> to_lines -> from_lines: every field equal, serialisation
-     idempotent, an untampered preview patch verifies; `merge <directive file>` into a copy of the submit
-     branch gives the same working tree, pending merges and conflicts as `merge <source branch> -r revid:`
-     into another copy.
+ (2) merge directives: MergeDirective2.from_objects (bundle+patch / bundle / patch / plain, with the default base
+     and with an explicit base_revision_id out of the revision's ancestry, as `send -r BASE..REV` gives) and the
+     format-1 MergeDirective (0.9 bundle / diff / plain) -> to_lines -> from_lines: every field equal, serialisation
+     idempotent, the explicit base recorded, an untampered preview patch verifies against the base the directive
+     names; `merge <directive file>` into a copy of the submit branch gives the same working tree, pending merges
+     and conflicts as `merge <source branch> -r revid:REV` (`-r revid:BASE..revid:REV` when the directive's base is
+     not in the submit branch: a cherrypick) into another copy.
  (3) tampering: one byte flipped in the preview patch => get_merge_request reports 'failed' and the merge
      command warns "Preview patch does not match changes"; one character flipped in the base64 bundle of a
      directive, one byte flipped in a raw v4 bundle, one byte flipped in a 0.9 bundle (patch text, testament
@@ -35,19 +39,21 @@ TECHNIQUE = ("round-trip monitor: write_bundle -> read_bundle -> install into a 
              "testament texts compared with the source repository; directive field equality through to_lines/from_lines; "
              "differential merge (directive file vs source branch); single-byte tampering must end in an error, an explicit "
              "mismatch report or identical testaments")
-LEVEL_TEXT = ("generated histories (quick <= 8 revisions / 3 branches, thorough <= 16 / 4) in 2a (mostly), 1.9-rich-root, "
-              "rich-root-pack, pack-0.92, 1.9, knit; per history 3-5 (base, target) pairs x every supported bundle format, "
-              "every directive flavour, 1 differential merge, ~10 tampered payloads")
+LEVEL_TEXT = ("generated histories (quick <= 8 revisions / 3 branches, thorough <= 16 / 4, plus up to 3 revisions that replace "
+              "the occupant of a path) in 2a (mostly), 1.9-rich-root, rich-root-pack, pack-0.92, 1.9, knit; per history 2-5 random "
+              "(base, target) pairs x every supported bundle format plus 2-5 pairs whose delta replaces a path's occupant x every "
+              "patch format (v4 for half), every directive flavour incl. an explicit base, 1 differential merge, ~10 tampered payloads")
 RULE = ("one evaluation = one (history, base, target, bundle format) installation judged, one directive flavour round-tripped, "
         "one differential merge, or one tampered payload judged; distinct = distinct (kind, revision texts carried, format / "
-        "flavour / tamper position class); non-trivial = the payload carries >= 2 revisions, a merge revision, or a tree with a "
+        "flavour / replacement class / tamper position class); non-trivial = the payload carries >= 2 revisions, a merge revision, or a tree with a "
         "symlink / executable / binary file")
 CASES = {"quick": 32, "thorough": 400}
 BUDGET_S = {"quick": 40, "thorough": 700}
 MIN_EVALS = {"quick": 400, "thorough": 5000}
 FLOORS = {"bundle_installed:4": 60, "bundle_installed:0.9": 60, "testament_compared": 300, "written_set_checked": 120,
           "reader_metadata_checked": 120, "directive_roundtrip": 60, "directive_patch_verified": 20, "merge_differential": 15,
-          "tamper_patch_reported": 15, "tamper_judged": 100, "tamper_detected": 50}
+          "tamper_patch_reported": 15, "tamper_judged": 100, "tamper_detected": 50,
+          "replacement_delta_installed:patch-format": 30, "directive_explicit_base": 30}
 EXHAUSTIVE = {"quick": False, "thorough": False}
 RUST = ["breezy._patch_rs", "breezy._osutils_rs"]  # patch dates (directives) and high-resolution dates (0.8 / 0.9 bundles)
 ASSUMPTIONS = [
@@ -57,6 +63,8 @@ ASSUMPTIONS = [
     "a flipped byte that leaves the decoded payload unchanged (base64 padding bits, line structure) is not a tamper and is discarded",
     "tamper verdict is by strict testament of the carried revisions: a flip that changes nothing a testament attests may install",
     "ghost parents are not generated",
+    "an explicit directive base is a revision of the target revision's ancestry (what `send -r BASE..REV` names); the preview "
+    "patch is judged by the directive's own verification against the base it records, not by a second diff implementation",
 ]
 
 FORMATS = ["2a"] * 6 + ["1.9-rich-root", "rich-root-pack", "pack-0.92", "1.9", "knit"]
